@@ -99,6 +99,14 @@ def gen_voter_steps(rng, btype, proto, names):
                 out.append(s)
                 seen.append(s[1])
         steps = out
+    # a ballot may be frozen in the middle of its construction and edited afterwards (anything remembered by that early
+    # freeze must not survive the later edits); cardinal ballots are also edited through the other dict mutators
+    if steps and rng.random() < 0.35:
+        if btype in ("card", "cum"):
+            steps = [(["updset", st[1], st[2]] if st[0] == "set" and rng.random() < 0.5 else (["pop", st[1]] if st[0] == "del" and rng.random() < 0.5 else st)) for st in steps]
+        steps.insert(rng.randint(1, len(steps)) if len(steps) > 1 else 0, ["freeze"])
+        if len(steps) > 3 and rng.random() < 0.3:
+            steps.insert(rng.randint(0, len(steps) - 1), ["freeze"])
     return steps
 
 
@@ -157,6 +165,8 @@ def gen_history(rng: random.Random):
 
 
 def content_of_steps(btype, steps):
+    steps = [st for st in steps if st[0] != "freeze"]
+    steps = [(["set", st[1], st[2]] if st[0] == "updset" else (["del", st[1]] if st[0] == "pop" else st)) for st in steps]
     if btype == "app":
         s = set()
         for st in steps:
@@ -184,6 +194,8 @@ def content_of_steps(btype, steps):
 
 def net_raw(btype, steps):
     """net insertion sequence handed to the model (same content, an insertion order of it)"""
+    steps = [st for st in steps if st[0] != "freeze"]
+    steps = [(["set", st[1], st[2]] if st[0] == "updset" else (["del", st[1]] if st[0] == "pop" else st)) for st in steps]
     if btype == "app":
         seq = []
         for st in steps:
@@ -266,7 +278,13 @@ def worker_run(h):
     for v in h["voters"]:
         b = BAL(name=v["name"], meta=dict(v["meta"]))
         for st in v["steps"]:
-            if st[0] == "add":
+            if st[0] == "freeze":
+                b.frozen()
+            elif st[0] == "updset":
+                b.update({projs[st[1]]: core.to_num(F(st[2]))})
+            elif st[0] == "pop":
+                b.pop(projs[st[1]])
+            elif st[0] == "add":
                 b.add(projs[st[1]])
             elif st[0] == "discard":
                 b.discard(projs[st[1]])
@@ -534,7 +552,7 @@ def dedupe(ctx):
 
 def run(ctx):
     ctx.rule = RULE
-    n = ctx.scale(400, 4000)
+    n = ctx.scale(1500, 8000)
     seeds = pick_seeds(ctx.rng, ctx.scale(3, 5))
     ctx.extra["hash_seeds"] = seeds
     histories = [gen_history(ctx.rng) for _ in range(n)]
